@@ -221,6 +221,35 @@ def note_mod_resolves(H, shape):
     H.cover("reached")
 
 
+@contract(
+    "note_reference_survives_save_load", ["C14", "C01"],
+    targets=["rv.project:Project.chunks", "rv.readers.sunvox:SunVoxReader.process_end_of_file", "rv.readers.sunvox:SunVoxReader.process_chunks",
+             "rv.readers.sunvox:SunVoxReader.process_BVER", "rv.readers.sunvox:SunVoxReader.process_VERS", "rv.note:Note.raw_data (setter)"],
+)
+def note_reference_survives_save_load(H, _):
+    """A note's 16-bit module number is the same after saving and loading, whatever release the project
+    says it is BASED ON (any four version bytes - e.g. a project first made with SunVox 1.7): the file is
+    stamped with the writer's own version, so no legacy masking applies, and the note still resolves to
+    the module at that position."""
+    from . import rw
+
+    p = Project()
+    amp = p.new_module(Amplifier)
+    p.based_on_version = tuple(H.int(f"based_on{i}", 0, 255) for i in range(4))
+    pat = Pattern(lines=1, tracks=1)
+    p.attach_pattern(pat)
+    k = H.int("module_number", 0, 0xFFFF)
+    pat.data[0][0].module = k
+    q = rw.read_back(H, rw.write_container(H, p))
+    H.check("based_on_version_kept", H.eq(tuple(q.based_on_version), tuple(p.based_on_version)))
+    cell = q.patterns[0].data[0][0]
+    H.check("module_number_kept", cell.module == k)
+    got = H.getattr(cell, "mod")
+    H.check("resolves_to_same_position", H.and_(H.implies(k == amp.index + 1, got is q.modules[amp.index]),
+                                                H.implies(k == 1, got is q.modules[0]), H.implies(k > 2, got is None)))
+    H.cover("reached")
+
+
 @contract("note_mod_canary", ["C14"], targets=["rv.note:Note.mod (getter)"], canary=True)
 def note_mod_canary(H, _):
     p = Project()
